@@ -25,12 +25,15 @@ import (
 	sdkmath "cosmossdk.io/math"
 	sdk "github.com/cosmos/cosmos-sdk/types"
 	distrtypes "github.com/cosmos/cosmos-sdk/x/distribution/types"
+	minttypes "github.com/cosmos/cosmos-sdk/x/mint/types"
 	stakingkeeper "github.com/cosmos/cosmos-sdk/x/staking/keeper"
 	stakingtypes "github.com/cosmos/cosmos-sdk/x/staking/types"
 	"github.com/ethereum/go-ethereum/common"
 	"github.com/ethereum/go-ethereum/core/vm"
 
+	fxcontract "github.com/functionx/fx-core/v8/contract"
 	fxtypes "github.com/functionx/fx-core/v8/types"
+	erc20types "github.com/functionx/fx-core/v8/x/erc20/types"
 	crosschaintypes "github.com/functionx/fx-core/v8/x/crosschain/types"
 	fxgovkeeper "github.com/functionx/fx-core/v8/x/gov/keeper"
 	fxgovtypes "github.com/functionx/fx-core/v8/x/gov/types"
@@ -88,7 +91,15 @@ func (s shape) facts() (caller int, kind string, static bool) {
 	}
 }
 
+// accounts that hold the ERC-20 (and what they allow the crosschain precompile to take)
+var tokenHolders = []int{aU0, aU1, aU2, aKC, aKB}
+var tokenAllowance = map[int]int64{aU0: 5_000, aU1: 9_000, aKB: 7_000} // aKC and aU2: none
+
 type World10 struct {
+	fx          *lib.Token
+	tok         *lib.Token
+	tokContract string // the ERC-20's external contract on eth
+	nClaims     uint64
 	c     *lib.Chain
 	keys  [3]lib.Key
 	addrs [nAccts]common.Address
@@ -140,7 +151,7 @@ func NewWorld10(seed int64) *World10 {
 	for i := 3; i < nAccts; i++ {
 		w.addrs[i] = common.BytesToAddress([]byte{0xc1, 0x00, 0x00, byte(i)})
 	}
-	c.SetupFX([]string{"eth"})
+	w.fx = c.SetupFX([]string{"eth"})
 	c.App.EthKeeper.SetLastObservedBlockHeight(c.Ctx, 1000, uint64(c.Ctx.BlockHeight()))
 	for i := 0; i < nAccts; i++ {
 		c.Mint(w.addrs[i].Bytes(), lib.FX(1000))
@@ -198,6 +209,7 @@ func NewWorld10(seed int64) *World10 {
 	if r := c.EvmCall(c.Ctx, w.addrs[aU1], &pc, big.NewInt(4000), 3_000_000, data); r.Err != nil || r.Failed {
 		panic(fmt.Sprintf("setup bridgeCall: %v %s", r.Err, r.VmError))
 	}
+	w.setupTokensAndClaims(seed)
 	// touch the staking precompile once so that its (empty) account exists before the compared runs, as on a live chain
 	sp := lib.StakingPrecompile
 	td, err := fxstakingtypes.GetABI().Pack("allowanceShares", w.vals[0].String(), w.addrs[aU1], w.addrs[aU0])
@@ -212,6 +224,59 @@ func NewWorld10(seed int64) *World10 {
 	return w
 }
 
+// setupTokensAndClaims: a module-owned ERC-20 bridged to eth that several accounts hold (the victim approved the
+// crosschain precompile, one contract did not), pool entries paid in it, the victim's reward withdraw address set to
+// the bystander, and pending claims attested by an oracle with all the power through the real Claim path.
+func (w *World10) setupTokensAndClaims(seed int64) {
+	c := w.c
+	tok, err := c.SetupModuleOwned("USDE", 93, []string{"eth"}, "")
+	lib.Must(err)
+	w.tok, w.tokContract = tok, tok.Alias("eth").Contract
+	liq := sdk.NewCoins(lib.Coin(tok.Alias("eth").Denom, 10_000_000))
+	for _, mod := range []string{"eth", erc20types.ModuleName} {
+		lib.Must(c.App.BankKeeper.MintCoins(c.Ctx, minttypes.ModuleName, liq))
+		lib.Must(c.App.BankKeeper.SendCoinsFromModuleToModule(c.Ctx, minttypes.ModuleName, mod, liq))
+	}
+	pc := lib.CrosschainPrecompile
+	for _, a := range tokenHolders {
+		addr := w.addrs[a]
+		c.Mint(addr.Bytes(), lib.Coin(tok.Base, 1_000_000))
+		_, err := c.App.Erc20Keeper.ConvertCoin(c.Ctx, &erc20types.MsgConvertCoin{Coin: lib.Coin(tok.Base, 1_000_000), Receiver: addr.Hex(), Sender: sdk.AccAddress(addr.Bytes()).String()})
+		lib.Must(err)
+		if al := tokenAllowance[a]; al > 0 {
+			_, err := c.App.EvmKeeper.ApplyContract(c.Ctx, addr, tok.ERC20, nil, fxcontract.GetFIP20().ABI, "approve", pc, big.NewInt(al))
+			lib.Must(err)
+		}
+	}
+	xabi := crosschaintypes.GetABI()
+	for _, a := range []int{aU1, aU0} { // pool entries 5 and 6, paid in the ERC-20
+		data, err := xabi.Pack("crossChain", tok.ERC20, lib.ExternalAccount(seed, "eth", 40+a), big.NewInt(800), big.NewInt(20), fxtypes.MustStrToByte32("eth"), "")
+		lib.Must(err)
+		if r := c.EvmCall(c.Ctx, w.addrs[a], &pc, nil, 3_000_000, data); r.Err != nil || r.Failed {
+			panic(fmt.Sprintf("setup ERC-20 crossChain: %v %s", r.Err, r.VmError))
+		}
+	}
+	lib.Must(c.App.DistrKeeper.SetWithdrawAddr(c.Ctx, w.addrs[aU1].Bytes(), w.addrs[aU2].Bytes()))
+	x := c.X("eth")
+	x.SetupOracles([]int64{10000})
+	o := x.Oracles[0]
+	fxContract := w.fx.Alias("eth").Contract
+	claims := []crosschaintypes.ExternalClaim{
+		&crosschaintypes.MsgSendToFxClaim{EventNonce: 1, BlockHeight: 1001, TokenContract: fxContract, Amount: sdkmath.NewInt(31_001),
+			Sender: lib.ExternalAccount(seed, "eth", 701), Receiver: sdk.AccAddress(w.addrs[aU2].Bytes()).String()},
+		&crosschaintypes.MsgBridgeCallResultClaim{EventNonce: 2, BlockHeight: 1002, Nonce: 1, TxOrigin: lib.ExternalAccount(seed, "eth", 702), Success: true},
+		&crosschaintypes.MsgBridgeCallResultClaim{EventNonce: 3, BlockHeight: 1003, Nonce: 99, TxOrigin: lib.ExternalAccount(seed, "eth", 703), Success: true},
+		&crosschaintypes.MsgSendToFxClaim{EventNonce: 4, BlockHeight: 1004, TokenContract: fxContract, Amount: sdkmath.NewInt(31_004),
+			Sender: lib.ExternalAccount(seed, "eth", 704), Receiver: sdk.AccAddress(w.addrs[aU1].Bytes()).String()},
+	}
+	for _, cl := range claims {
+		if err := x.Claim(o, cl); err != nil {
+			panic(fmt.Sprintf("setup claim: %v", err))
+		}
+	}
+	w.nClaims = uint64(len(claims))
+}
+
 // ---- abstract state ----
 
 type AState struct {
@@ -221,11 +286,15 @@ type AState struct {
 	Unb    [nAccts][2]*big.Int
 	Rrd    [nAccts][2]bool
 	Alw    map[[3]int]*big.Int // validator, owner, spender
-	Pool   map[uint64][3]string // id -> sender id, amount, fee
+	Pool   map[uint64][4]string // id -> sender id, amount, fee, "true" if paid in the ERC-20
 	LastTx uint64
-	BCalls map[uint64][3]string // nonce -> sender id, refund id, amount
+	BCalls map[uint64][4]string // nonce -> sender id, refund id, FX amount, ERC-20 amount
 	LastBC uint64
 	Switch []string
+	Wdr    [nAccts]int          // withdraw address (account id; -1 = outside the tracked universe)
+	Tok    [nAccts]*big.Int     // ERC-20 balance
+	Tka    [nAccts]*big.Int     // ERC-20 allowance given to the crosschain precompile
+	Claims map[uint64]string    // pending claims: nonce -> Coq term of M_Precompile.pclaim
 }
 
 func (w *World10) idOf(addr []byte) int {
@@ -249,7 +318,7 @@ func lastID(c *lib.Chain, ctx sdk.Context, key []byte) uint64 {
 
 func (w *World10) observe(ctx sdk.Context) *AState {
 	c := w.c
-	s := &AState{Alw: map[[3]int]*big.Int{}, Pool: map[uint64][3]string{}, BCalls: map[uint64][3]string{}}
+	s := &AState{Alw: map[[3]int]*big.Int{}, Pool: map[uint64][4]string{}, BCalls: map[uint64][4]string{}, Claims: map[uint64]string{}}
 	qctx, _ := ctx.CacheContext() // the reward query moves the validator period on its branch
 	for a := 0; a < nAccts; a++ {
 		acc := sdk.AccAddress(w.addrs[a].Bytes())
@@ -297,16 +366,47 @@ func (w *World10) observe(ctx sdk.Context) *AState {
 		return false
 	})
 	for _, tx := range c.App.EthKeeper.GetUnbatchedTransactions(ctx) {
-		s.Pool[tx.Id] = [3]string{fmt.Sprint(w.idOf(sdk.MustAccAddressFromBech32(tx.Sender))), tx.Token.Amount.String(), tx.Fee.Amount.String()}
+		s.Pool[tx.Id] = [4]string{fmt.Sprint(w.idOf(sdk.MustAccAddressFromBech32(tx.Sender))), tx.Token.Amount.String(), tx.Fee.Amount.String(),
+			lib.Bool(tx.Token.Contract == w.tokContract)}
 	}
 	c.App.EthKeeper.IterateOutgoingBridgeCalls(ctx, func(oc *crosschaintypes.OutgoingBridgeCall) bool {
-		amt := sdkmath.ZeroInt()
+		fx, tk := sdkmath.ZeroInt(), sdkmath.ZeroInt()
 		for _, t := range oc.Tokens {
-			amt = amt.Add(t.Amount)
+			if t.Contract == w.tokContract {
+				tk = tk.Add(t.Amount)
+			} else {
+				fx = fx.Add(t.Amount)
+			}
 		}
-		s.BCalls[oc.Nonce] = [3]string{fmt.Sprint(w.idOf(common.HexToAddress(oc.Sender).Bytes())), fmt.Sprint(w.idOf(common.HexToAddress(oc.Refund).Bytes())), amt.String()}
+		s.BCalls[oc.Nonce] = [4]string{fmt.Sprint(w.idOf(common.HexToAddress(oc.Sender).Bytes())), fmt.Sprint(w.idOf(common.HexToAddress(oc.Refund).Bytes())), fx.String(), tk.String()}
 		return false
 	})
+	for a := 0; a < nAccts; a++ {
+		s.Tok[a], s.Tka[a] = big.NewInt(0), big.NewInt(0)
+		s.Wdr[a] = a
+		if wa, err := c.App.DistrKeeper.GetDelegatorWithdrawAddr(ctx, w.addrs[a].Bytes()); err == nil {
+			s.Wdr[a] = w.idOf(wa)
+		}
+	}
+	for _, a := range tokenHolders {
+		s.Tok[a] = c.ERC20BalanceOf(ctx, w.tok.ERC20, w.addrs[a])
+		var res struct{ Value *big.Int }
+		if err := c.App.EvmKeeper.QueryContract(ctx, w.addrs[aU2], w.tok.ERC20, fxcontract.GetFIP20().ABI, "allowance", &res, w.addrs[a], lib.CrosschainPrecompile); err == nil && res.Value != nil {
+			s.Tka[a] = res.Value
+		}
+	}
+	for n := uint64(1); n <= w.nClaims; n++ {
+		cl, found := c.App.EthKeeper.GetPendingExecuteClaim(ctx, n)
+		if !found {
+			continue
+		}
+		switch x := cl.(type) {
+		case *crosschaintypes.MsgSendToFxClaim:
+			s.Claims[n] = fmt.Sprintf("(PSendToFx %d %s)", w.idOf(sdk.MustAccAddressFromBech32(x.Receiver)), x.Amount.String())
+		case *crosschaintypes.MsgBridgeCallResultClaim:
+			s.Claims[n] = fmt.Sprintf("(PResultOk %d)", x.Nonce)
+		}
+	}
 	s.LastTx = lastID(c, ctx, crosschaintypes.KeyLastTxPoolID)
 	s.LastBC = lastID(c, ctx, crosschaintypes.KeyLastBridgeCallID)
 	s.Switch = c.App.GovKeeper.GetSwitchParams(ctx).DisablePrecompiles
@@ -357,7 +457,7 @@ func (s *AState) coq() string {
 	sort.Slice(ids, func(i, j int) bool { return ids[i] < ids[j] })
 	for _, id := range ids {
 		e := s.Pool[id]
-		pool = append(pool, lib.Pair(lib.ZU(id), fmt.Sprintf("(%s, %s, %s)", zs(e[0]), e[1], e[2])))
+		pool = append(pool, lib.Pair(lib.ZU(id), fmt.Sprintf("(%s, %s, %s, %s)", zs(e[0]), e[1], e[2], e[3])))
 	}
 	ids = nil
 	for id := range s.BCalls {
@@ -366,13 +466,34 @@ func (s *AState) coq() string {
 	sort.Slice(ids, func(i, j int) bool { return ids[i] < ids[j] })
 	for _, id := range ids {
 		e := s.BCalls[id]
-		bc = append(bc, lib.Pair(lib.ZU(id), fmt.Sprintf("(%s, %s, %s)", zs(e[0]), zs(e[1]), e[2])))
+		bc = append(bc, lib.Pair(lib.ZU(id), fmt.Sprintf("(%s, %s, %s, %s)", zs(e[0]), zs(e[1]), e[2], e[3])))
 	}
 	for _, e := range s.Switch {
 		sw = append(sw, "\""+e+"\"%string")
 	}
-	return fmt.Sprintf("(mk_astate %s %s %s %s %s %s %s %s %s %s %s)", lib.List(bal), lib.List(dlg), lib.List(rwd), lib.List(unb),
-		lib.List(rrd), lib.List(alw), lib.List(pool), lib.ZU(s.LastTx), lib.List(bc), lib.ZU(s.LastBC), lib.List(sw))
+	var wdr, tok, tka, cls []string
+	for a := 0; a < nAccts; a++ {
+		if s.Wdr[a] != a {
+			wdr = append(wdr, lib.Pair(lib.Z(int64(a)), lib.Z(int64(s.Wdr[a]))))
+		}
+		if s.Tok[a].Sign() != 0 {
+			tok = append(tok, lib.Pair(lib.Z(int64(a)), zb(s.Tok[a])))
+		}
+		if s.Tka[a].Sign() != 0 {
+			tka = append(tka, lib.Pair(lib.Z(int64(a)), zb(s.Tka[a])))
+		}
+	}
+	var cn []uint64
+	for n := range s.Claims {
+		cn = append(cn, n)
+	}
+	sort.Slice(cn, func(i, j int) bool { return cn[i] < cn[j] })
+	for _, n := range cn {
+		cls = append(cls, lib.Pair(lib.ZU(n), s.Claims[n]))
+	}
+	return fmt.Sprintf("(mk_astate %s %s %s %s %s %s %s %s %s %s %s %s %s %s %s)", lib.List(bal), lib.List(dlg), lib.List(rwd), lib.List(unb),
+		lib.List(rrd), lib.List(alw), lib.List(pool), lib.ZU(s.LastTx), lib.List(bc), lib.ZU(s.LastBC), lib.List(sw),
+		lib.List(wdr), lib.List(tok), lib.List(tka), lib.List(cls))
 }
 
 func zs(s string) string {
@@ -494,7 +615,31 @@ func (w *World10) calls(caller int) []Call10 {
 	for _, refund := range []int{aU1, caller} {
 		add(X, "bridgeCall", fmt.Sprintf("(CBridgeCall %d)", refund), true, big.NewInt(3000), -1, nil, 0, "eth", A(refund), []common.Address{}, []*big.Int{}, common.HexToAddress("0x1234"), []byte{7}, big.NewInt(0), []byte{})
 	}
-	add(X, "executeClaim", "(CExecuteClaim 5)", true, nil, -1, nil, 0, "eth", big.NewInt(5))
+	// executeClaim: a deposit for the bystander, one for the victim, the attested result of the victim's bridge call, the
+	// result of a call that does not exist (the keeper panics), a nonce that is not pending
+	for _, n := range []int64{1, 4, 2, 3, 5} {
+		add(X, "executeClaim", fmt.Sprintf("(CExecuteClaim %d)", n), true, nil, -1, nil, 0, "eth", big.NewInt(n))
+	}
+	// the ERC-20 paths: crossChain (transferFrom by the precompile: needs the CALLER's allowance), within / beyond it
+	T := w.tok.ERC20
+	for _, c := range [][2]int64{{300, 20}, {4_990, 10}, {4_990, 11}, {2_000_000, 0}} {
+		add(X, "crossChain", fmt.Sprintf("(CCrossChainTok %d %d)", c[0], c[1]), true, nil, -1, nil, 0, T, lib.ExternalAccount(w.c.Seed, "eth", 8), big.NewInt(c[0]), big.NewInt(c[1]), fxtypes.MustStrToByte32("eth"), "")
+	}
+	// fee increase paid in the ERC-20 on the victim's ERC-20 entry, one's own, an FX entry, a missing one; FX on an ERC-20 entry
+	for _, id := range []int64{5, 6, 1, 99} {
+		add(X, "increaseBridgeFee", fmt.Sprintf("(CIncreaseBridgeFeeTok %d 30)", id), true, nil, -1, nil, 0, "eth", big.NewInt(id), T, big.NewInt(30))
+	}
+	add(X, "increaseBridgeFee", "(CIncreaseBridgeFee 5 500)", true, big.NewInt(500), -1, nil, 0, "eth", big.NewInt(5), common.Address{}, big.NewInt(500))
+	for _, id := range []int64{5, 6} {
+		add(X, "cancelSendToExternal", fmt.Sprintf("(CCancelSendToExternal %d)", id), true, nil, -1, nil, 0, "eth", big.NewInt(id))
+	}
+	// bridgeCall carrying the ERC-20: ConvertERC20 of the CALLER's tokens (no allowance involved), within / beyond the balance
+	for _, c := range []struct {
+		refund int
+		amt    int64
+	}{{aU1, 250}, {caller, 1}, {aU1, 2_000_000}, {aU1, 0}} {
+		add(X, "bridgeCall", fmt.Sprintf("(CBridgeCallTok %d %d)", c.refund, c.amt), true, nil, -1, nil, 0, "eth", A(c.refund), []common.Address{T}, []*big.Int{big.NewInt(c.amt)}, common.HexToAddress("0x1234"), []byte{9}, big.NewInt(0), []byte{})
+	}
 	// no such method, input too short
 	out = append(out, Call10{Method: "<unknown>", Coq: "CUnknownMethod", Target: S, Data: []byte{0xde, 0xad, 0xbe, 0xef, 0, 0, 0, 1}, Value: big.NewInt(0), From: -1})
 	out = append(out, Call10{Method: "<short>", Coq: "CShortInput", Target: X, Data: []byte{0x16, 0x0d, 0x7c}, Value: big.NewInt(0), From: -1})
@@ -738,7 +883,11 @@ func (w *World10) one(rep *lib.Report, r *lib.Rand, sh shape, caller int, kind s
 		}
 	}
 	find(tr.Root)
-	if pf != nil && (pf.Err == "") != ok {
+	aborted := res.Err != nil && strings.HasPrefix(res.Err.Error(), "PANIC") // a keeper panic: the transaction never returned
+	if aborted {
+		rep.Count("aborted_by_keeper_panic")
+	}
+	if pf != nil && !aborted && (pf.Err == "") != ok {
 		rep.Fail(lib.Failure{Kind: "harness", What: "transaction status differs from the precompile frame's status", Sig: "C10:harness:status", Replay: rp})
 	}
 	if pf != nil && pf.From != w.addrs[caller] {
@@ -809,12 +958,21 @@ func (w *World10) one(rep *lib.Report, r *lib.Rand, sh shape, caller int, kind s
 			if post.Unb[a][v].Cmp(pre.Unb[a][v]) < 0 {
 				fail("an unbonding entry of an account that is not the direct caller shrank", "C10:third-party:unbonding", fmt.Sprintf("account %d", a))
 			}
-			// reward entitlement: may only turn into balance of the same account (withdraw address = self here)
+			// reward entitlement: may only turn into balance of the account's withdraw address
 			if post.Rwd[a][v].Cmp(pre.Rwd[a][v]) < 0 {
-				gain := new(big.Int).Sub(post.Bal[a], exp)
+				wa := pre.Wdr[a]
 				lost := new(big.Int).Sub(pre.Rwd[a][v], post.Rwd[a][v])
-				if gain.Cmp(new(big.Int).Sub(lost, big.NewInt(2))) < 0 {
-					fail("reward entitlement of an account that is not the direct caller was reduced without being paid out to it", "C10:third-party:rewards", fmt.Sprintf("account %d lost %s gained %s", a, lost, gain))
+				paid := wa >= 0
+				if paid {
+					base := new(big.Int).Set(pre.Bal[wa])
+					if wa == aU0 && ok && sh != shEOA {
+						base.Sub(base, value)
+					}
+					gain := new(big.Int).Sub(post.Bal[wa], base)
+					paid = gain.Cmp(new(big.Int).Sub(lost, big.NewInt(2))) >= 0 || wa == caller
+				}
+				if !paid {
+					fail("reward entitlement of an account that is not the direct caller was reduced without being paid out to its withdraw address", "C10:third-party:rewards", fmt.Sprintf("account %d (withdraw address %d) lost %s", a, wa, lost))
 				}
 			}
 			if post.Dlg[a][v].Cmp(pre.Dlg[a][v]) < 0 {
@@ -865,10 +1023,33 @@ func (w *World10) one(rep *lib.Report, r *lib.Rand, sh shape, caller int, kind s
 				fail("a pool entry of an account that is not the direct caller was altered to its disadvantage", "C10:third-party:pool", fmt.Sprintf("tx %d: %v -> %v", id, e, e2))
 			}
 		}
+		if post.Tok[a].Cmp(pre.Tok[a]) < 0 {
+			fail("the ERC-20 balance of an account that is not the direct caller decreased", "C10:third-party:erc20", fmt.Sprintf("account %d: %s -> %s", a, pre.Tok[a], post.Tok[a]))
+		}
+		if post.Tka[a].Cmp(pre.Tka[a]) != 0 {
+			fail("the ERC-20 allowance an account that is not the direct caller gave the precompile changed", "C10:third-party:erc20-allowance", fmt.Sprintf("account %d: %s -> %s", a, pre.Tka[a], post.Tka[a]))
+		}
 		for n, e := range pre.BCalls {
 			if e[0] == fmt.Sprint(a) && post.BCalls[n] != e {
+				if _, gone := post.BCalls[n]; !gone && call.Method == "executeClaim" && ok {
+					// closed by the attested result of that very call (a pending result claim for nonce n was executed)
+					closed := false
+					for cn, cl := range pre.Claims {
+						if _, still := post.Claims[cn]; !still && cl == fmt.Sprintf("(PResultOk %d)", n) {
+							closed = true
+						}
+					}
+					if closed {
+						continue
+					}
+				}
 				fail("a bridge call of an account that is not the direct caller was altered", "C10:third-party:bridge-call", fmt.Sprintf("nonce %d", n))
 			}
+		}
+	}
+	for a := 0; a < nAccts; a++ {
+		if post.Wdr[a] != pre.Wdr[a] {
+			fail("a precompile call changed a reward withdraw address", "C10:withdraw-address", fmt.Sprintf("account %d: %d -> %d", a, pre.Wdr[a], post.Wdr[a]))
 		}
 	}
 	// ---- correspondence ----
